@@ -636,6 +636,21 @@ impl<M: ConvexCellMarker + 'static> ConvexCell<M> {
         integrator.finalize()
     }
 
+    /// The top of the tetrahedra whose base triangles are fed to the face integrals of the
+    /// given clipping plane: the generator of this cell, unless it lies exactly _on_ the plane
+    /// (a generator on a wall of the simulation volume). The tetrahedra are flat in that case
+    /// and the orientation of their base triangles as seen from the generator (the sign of
+    /// their contribution) is undefined, so a point on the inside of the plane is used instead.
+    pub(super) fn face_apex(&self, plane_idx: usize) -> DVec3 {
+        let plane = &self.clipping_planes[plane_idx].plane;
+        if plane.n.dot(self.loc - plane.p) == 0. {
+            // (far enough not to be absorbed by the rounding of large coordinates)
+            self.loc + (1. + self.loc.abs().max_element()) * plane.n
+        } else {
+            self.loc
+        }
+    }
+
     fn clipping_plane_has_valid_dimensionality(&self, plane_idx: usize) -> bool {
         self.dimensionality.vector_is_valid(self.clipping_planes[plane_idx].normal())
     }
@@ -659,7 +674,12 @@ impl<M: ConvexCellMarker + 'static> ConvexCell<M> {
             let integral = &mut integrals[tet.plane_idx];
             let integral = integral
                 .get_or_insert_with(|| FaceIntegrator::<I>::init(self, tet.plane_idx, extra_data));
-            integral.collect(tet.vertices[0], tet.vertices[1], tet.vertices[2], self.loc);
+            integral.collect(
+                tet.vertices[0],
+                tet.vertices[1],
+                tet.vertices[2],
+                self.face_apex(tet.plane_idx),
+            );
         }
 
         integrals.into_iter().flatten().map(|integral| integral.finalize()).collect()
@@ -701,7 +721,12 @@ impl<M: ConvexCellMarker + 'static> ConvexCell<M> {
             }
             let integral = integral
                 .get_or_insert_with(|| FaceIntegrator::<I>::init(self, tet.plane_idx, extra_data));
-            integral.collect(tet.vertices[0], tet.vertices[1], tet.vertices[2], self.loc);
+            integral.collect(
+                tet.vertices[0],
+                tet.vertices[1],
+                tet.vertices[2],
+                self.face_apex(tet.plane_idx),
+            );
         }
 
         integrals.into_iter().flatten().map(|integral| integral.finalize()).collect()
